@@ -72,6 +72,11 @@ mixed do_op (string s) {
     VL (VNOW + " r cofp " + oid + " " + w[1] + " " + w[2] + " " + w[3] + " " + r + " " + tp ());
     break;
   }
+  case "cofpb":  // cofpb <f> <delay> <tag>: function pointer with a bound argument, the tag comes through call_out
+    r = call_out ((: fired, to_int (w[1]) :), parse_int (w[2]), w[3]);
+    handles[w[3]] = r;
+    VL (VNOW + " r cofp " + oid + " " + w[1] + " " + w[2] + " " + w[3] + " " + r + " " + tp ());
+    break;
   case "coa":  // coa <f> <delay> <tag>: the same with three more arguments (see fired ())
     r = call_out ("co" + w[1], parse_int (w[2]), w[3], "x" + w[3], peer (), 42 + strlen (w[3]));
     handles[w[3]] = r;
